@@ -104,7 +104,7 @@ def _find_batch(prop, batch_name):
     raise KeyError(batch_name)
 
 
-def _run_chunk(prop, batch_name, start, end, root, digest_every):
+def _run_chunk(prop, batch_name, start, end, root, digest_every, state_mask=0):
     faulthandler.enable()
     cd, batch = _find_batch(prop, batch_name)
     agg = Aggregate()
@@ -130,6 +130,10 @@ def _run_chunk(prop, batch_name, start, end, root, digest_every):
                     "this property has no termination clause, so this is a harness error"
                 )
                 continue
+            if state_mask:
+                # thorough tier: keep a 1/(mask+1) hash sample of the coverage signatures (memory bound)
+                res.states = {h for h in res.states if not (h & state_mask)}
+                res.trans = {h for h in res.trans if not (h & state_mask)}
             trace_meta = dict(trace)
             trace_meta.setdefault("run_index", i)
             agg.add(batch_name, i, seed, trace_meta, res, digest_every and i % digest_every == 0)
@@ -315,6 +319,7 @@ def run_check(prop: str, tier: str) -> int:
     )
     total_runs = sum(n for _, n in plan)
     digest_every = max(1, total_runs // (60 if tier == "quick" else 200))
+    state_mask = 0 if tier == "quick" else 15  # thorough: 1/16 hash sample of coverage signatures
 
     # chunks, interleaved across batches so that a wall cap cuts all batches evenly
     chunks = []
@@ -346,7 +351,7 @@ def run_check(prop: str, tier: str) -> int:
                     capped = True
                     exhausted = True
                     break
-                fut = pool.submit(_run_chunk, prop, b.name, s, e, root, digest_every)
+                fut = pool.submit(_run_chunk, prop, b.name, s, e, root, digest_every, state_mask)
                 pending[fut] = (b, s, e, time.monotonic())
             if not pending:
                 break
@@ -476,8 +481,9 @@ def run_check(prop: str, tier: str) -> int:
             "probes": dict(sorted(agg.probes.items())),
             "oracle_relaxations_applied": dict(sorted(agg.relaxations.items())),
             "distinct_states": {
-                "states": len(agg.states),
-                "transitions": len(agg.trans),
+                "states": len(agg.states) * (state_mask + 1),
+                "transitions": len(agg.trans) * (state_mask + 1),
+                "counted": "exactly" if not state_mask else f"estimated: {len(agg.states)} states / {len(agg.trans)} transitions in a 1/{state_mask + 1} hash sample",
                 "measure": cd.state_measure,
             },
             "components": {"real": cd.components_real, "stub": cd.components_stub},
@@ -502,7 +508,7 @@ def run_check(prop: str, tier: str) -> int:
         f"{prop} {tier}: {agg.evaluations} runs in {wall:.1f}s "
         f"({evidence['coverage']['runs_per_hour']} runs/h, {nworkers} workers), "
         f"{len(agg.nontrivial_digests)} distinct non-trivial, "
-        f"{len(agg.states)} states / {len(agg.trans)} transitions, "
+        f"{len(agg.states) * (state_mask + 1)} states / {len(agg.trans) * (state_mask + 1)} transitions, "
         f"faults fired: {sum(agg.faults.values())} in {agg.fault_runs} runs, "
         f"determinism {equal}/{resampled}"
     )
